@@ -88,6 +88,19 @@ pub static CUR_CALL: AtomicU64 = AtomicU64::new(0);
 /// incremented by the worker at the start of every case (the watchdog restarts the
 /// case budget when it changes)
 pub static CASE_SEQ: AtomicU64 = AtomicU64::new(0);
+/// while > 0 the hang watchdog does not count (constructors and harness set-up are not
+/// what C05 times; the case budget still applies)
+pub static WATCH_PAUSED: AtomicU64 = AtomicU64::new(0);
+/// longest CPU time without a progress tick seen by the watchdog in the current case
+pub static MAX_STALL_MS: AtomicU64 = AtomicU64::new(0);
+/// Run `f` with the per-call hang watchdog paused.
+pub fn unwatched<R>(f: impl FnOnce() -> R) -> R {
+    WATCH_PAUSED.fetch_add(1, Ordering::SeqCst);
+    let r = f();
+    WATCH_PAUSED.fetch_sub(1, Ordering::SeqCst);
+    tick();
+    r
+}
 static CASE_MILLIS: AtomicU64 = AtomicU64::new(600_000);
 pub fn set_case_secs(s: f64) {
     CASE_MILLIS.store((s * 1000.0) as u64, Ordering::Relaxed);
@@ -155,10 +168,14 @@ pub fn start_watchdog() {
                 let _ = o.flush();
                 std::process::exit(3);
             }
-            if now != last {
+            if now != last || WATCH_PAUSED.load(Ordering::Relaxed) > 0 {
                 last = now;
                 cpu_at = cpu;
-            } else if cpu - cpu_at > limit {
+            } else {
+                // margin to the hang limit, reported in the evidence
+                MAX_STALL_MS.fetch_max(((cpu - cpu_at) * 1000.0) as u64, Ordering::Relaxed);
+            }
+            if now == last && WATCH_PAUSED.load(Ordering::Relaxed) == 0 && cpu - cpu_at > limit {
                 let out = std::io::stdout();
                 let mut o = out.lock();
                 let _ = writeln!(
@@ -391,6 +408,7 @@ pub fn worker_main(engine: &dyn Engine, ctx: &Ctx) -> i32 {
         // a panic escaping an engine is a harness error, but report it as data
         let res = panic::catch_unwind(AssertUnwindSafe(|| engine.run_case(ctx, idx)));
         let res = res.map(|mut r| {
+            r.stat_max("longest_stall_without_progress_cpu_s(limit_is_hang_secs)", MAX_STALL_MS.swap(0, Ordering::Relaxed) as f64 / 1000.0);
             r.stat_max("slowest_case_cpu_s", cpu_seconds() - cpu0);
             r
         });
